@@ -277,6 +277,7 @@ func (g *Gen) Step() bool {
 		choice{g.wt("hostilehttp"), g.opHostileHTTP},
 		choice{g.wt("inject"), func() { g.opInject(conns, pend) }},
 		choice{g.wt("cidevent") * boolInt(len(conns) > 0), func() { g.opCIDEvent(conns) }},
+		choice{g.wt("connevent") * boolInt(len(conns) > 0), func() { g.opConnEvent(conns) }},
 		choice{g.wt("badanswer") * boolInt(len(pend) > 0), func() { g.opBadAnswer(pend) }},
 		choice{g.wt("badevent"), g.opBadEvent},
 		choice{g.wt("sleep") * boolInt(g.w.Cfg.UnsubDelayMs > 0), func() {
@@ -1579,6 +1580,19 @@ func (g *Gen) opBadEvent() {
 		return
 	}
 	g.w.Exec(Op{K: "rawev", S: "event." + name + ".change", P: `{"values":{"zz":` + ref + `}}`, Key: "badevent"})
+}
+
+// opConnEvent: an event on a connection's subject that is not the token event.
+// The protocol has no other connection event: nothing happens, whatever the
+// payload looks like.
+func (g *Gen) opConnEvent(conns []*Client) {
+	c := g.conn(conns)
+	if c.CID == "" {
+		return
+	}
+	ev := g.sample("connev", []string{"ping", "tokens", "Token", "reaccess", "x", "token.x"})
+	p := g.sample("connevpayload", []string{`{"ts":1}`, `{"token":{"u":9},"tid":"t9"}`, `{}`, `null`, `{"token":null}`, ``})
+	g.w.Exec(Op{K: "rawev", S: "conn." + c.CID + "." + ev, P: p, Key: "connevent"})
 }
 
 // opCIDEvent mutates (and announces) the {cid} resource instance of one connection.
